@@ -16,7 +16,7 @@ DIGEST = "cred/_digest.py"
 WEB = "web/_auth/digest.py"
 QF = "twisted.cred.credentials.DigestCredentialFactory"
 QC = "twisted.cred.credentials.DigestedCredentials"
-TECHNIQUE = "CFG dominance of verification guards, exception-escape, generator/verifier agreement, hash-sequence paths"
+TECHNIQUE = "CFG dominance, exception-escape, provenance, table agreement; exhaustive classes; bounded clock grid"
 EXPLANATION = (
     "Decides on the CFG of DigestCredentialFactory._verifyOpaque/decode: every normal exit is dominated by the nonce, "
     "client-address, lifetime (exact boundary `now - when > LIFETIME`) and keyed-digest (key + privateKey) guards, every "
@@ -31,7 +31,17 @@ EXPLANATION = (
     "The pair (issue time written by _generateOpaque, age test of _verifyOpaque) is evaluated over fractional clock phases and ages around the boundary: the stamp "
     "must be the floor of the clock and the accepted (issue, verify) instants must equal int(t') - int(t) <= LIFETIME (real age of an accepted challenge < LIFETIME + 1 s). "
     "Also decided: no anchor on the decode->guards path (nor the clock, nonce and opaque generators) carries a decorator, second definition or rebinding that could answer a call without executing the body (memoisation of a verdict that depends on the clock); the pure _digest helpers may be cached. "
+    "Methods: all clauses are decided structurally (for every input / path) except three evaluated ones: separator-vs-alphabet and client-address agreement are finite-exhaustive (whole codec alphabet; one address per class the code distinguishes, side condition checked - else the rule is reported as bounded '...-sampled'); the clock grid (lifetime/issue-time-is-floor-of-clock, lifetime/accepted-instants-equal-spec) is bounded evidence layered under the structural deciders verify/guard-lifetime (normalised boundary) and lifetime/stamp-conversion-is-floor / verifier-clock-is-floor (floor of the bare clock call). "
 )
+RULE_KINDS = {
+    "*": "structural",                                            # CFG dominance / must-pass, exception-escape with handler families, provenance of arguments,
+                                                                  # generator<->verifier table agreement, CFG-path enumeration of the m.update sequences, decorator allow-list
+    "agreement/separator-outside-alphabet": "finite-exhaustive",  # the separator against EVERY byte the codec + hexlify can emit (frozen codec alphabets)
+    "agreement/client-address-normalisation": "finite-exhaustive",  # one value per class the code can distinguish (side condition checked on the code)
+    "agreement/client-address-normalisation-sampled": "bounded",  # same comparison when the side condition does not hold
+    "lifetime/issue-time-is-floor-of-clock": "bounded",           # second layer under lifetime/stamp-conversion-is-floor
+    "lifetime/accepted-instants-equal-spec": "bounded",           # second layer under verify/guard-lifetime + lifetime/*-is-floor
+}
 ASSUMPTIONS = [
     "the rules read a normalised view of the anchored modules (sa/props/_lib_j.Normaliser): private helpers expanded at their call sites, module constants and single-assignment pure temporaries substituted, loops over constant tuples unrolled; evaluation order inside one statement is not modelled",
    
@@ -450,10 +460,17 @@ def _s_agreement(ctx, S):
     except NotConst as e:
         raise AnalysisError(f"client-address normalisation not evaluable: {e}")
     diff = [(v, a, b) for v, a, b in zip(domain, ng, nv) if a != b or type(a) is not type(b)]
-    ctx.check(not diff, "agreement/client-address-normalisation", qa + " | clientip normalisation",
+    # domain argument, checked on the code: both functions look at the address only through its truthiness / `is None` / isinstance(., str|bytes) and rebind it
+    # only to a constant, to itself or to itself.encode/decode(<const>).  Then the five values - None, "", b"", a non-empty str, a non-empty bytes - are one
+    # representative of every class the code can distinguish and the comparison is exhaustive; otherwise it is a sample.
+    complete = _ip_tests_are_class_tests(gen["func"], params(gen["func"])[2]) and _ip_tests_are_class_tests(fv, P_IP)
+    rname = "agreement/client-address-normalisation" if complete else "agreement/client-address-normalisation-sampled"
+    ctx.check(not diff, rname, qa + " | clientip normalisation",
               f"the client address is normalised differently when the opaque is generated and when it is verified: "
-              f"{'; '.join(f'{v!r} -> {a!r} vs {b!r}' for v, a, b in diff[:3])} - a genuine response from such a client is refused")
-    ctx.check(all(isinstance(x, bytes) for x in ng), "agreement/client-address-normalisation", gen["q"] + " | clientip is bytes",
+              f"{'; '.join(f'{v!r} -> {a!r} vs {b!r}' for v, a, b in diff[:3])} - a genuine response from such a client is refused",
+              detail="finite-exhaustive: the address is inspected only by truthiness / None-ness / isinstance(str|bytes); {None, '', b'', str, bytes} has one value per class"
+              if complete else "bounded: 5 sample addresses (the code inspects the address in ways not reducible to type/emptiness classes)")
+    ctx.check(all(isinstance(x, bytes) for x in ng), rname, gen["q"] + " | clientip is bytes",
               f"the normalised client address is not always bytes ({ng}): joining the key fields raises TypeError")
 
 
@@ -778,6 +795,46 @@ def _ev(node, env):
     raise NotConst(type(node).__name__)
 
 
+def _ip_tests_are_class_tests(func, name) -> bool:
+    """Structural side-condition of the finite-exhaustive client-address rule (see there)."""
+    def mentions(e):
+        return any(isinstance(x, ast.Name) and x.id == name for x in ast.walk(e))
+
+    def class_test(t):
+        while isinstance(t, ast.UnaryOp) and isinstance(t.op, ast.Not):
+            t = t.operand
+        if isinstance(t, ast.BoolOp):
+            return all(class_test(v) for v in t.values)
+        if not mentions(t):
+            return True
+        if isinstance(t, ast.Name):
+            return True
+        if isinstance(t, ast.Call) and dotted(t.func) == "isinstance" and len(t.args) == 2 and isinstance(t.args[0], ast.Name) and \
+                all(src(k) in ("str", "bytes") for k in (t.args[1].elts if isinstance(t.args[1], ast.Tuple) else [t.args[1]])):
+            return True
+        if isinstance(t, ast.Compare) and len(t.ops) == 1 and isinstance(t.ops[0], (ast.Is, ast.IsNot)) and isinstance(t.left, ast.Name) and src(t.comparators[0]) == "None":
+            return True
+        return False
+
+    def class_value(v):
+        if isinstance(v, ast.Constant) or (isinstance(v, ast.Name) and v.id == name):
+            return True
+        return isinstance(v, ast.Call) and isinstance(v.func, ast.Attribute) and v.func.attr in ("encode", "decode") and isinstance(v.func.value, ast.Name) \
+            and v.func.value.id == name and all(isinstance(a, ast.Constant) for a in v.args) and not v.keywords
+    for n in walk_local(func):
+        if isinstance(n, ast.Assign) and any(isinstance(t, ast.Name) and t.id == name for t in n.targets):
+            if not class_value(n.value):
+                return False
+            p = getattr(n, "_parent", None)
+            while p is not None and p is not func:
+                if isinstance(p, ast.If) and not class_test(p.test):
+                    return False
+                if isinstance(p, (ast.For, ast.While, ast.Try, ast.With)):
+                    return False
+                p = getattr(p, "_parent", None)
+    return True
+
+
 def _run_tracked(func, name, value):
     """Interpret the statements of ``func`` that (re)bind ``name`` - assignments and the if-statements that contain them - starting from
     ``name = value``; everything else is skipped.  Returns the final value of ``name`` before its first use in another binding."""
@@ -805,6 +862,34 @@ def _run_tracked(func, name, value):
     return env[name]
 
 
+def _clock_use(expr):
+    """Conversion applied to the clock call where it is used inside ``expr`` (same verdicts as _clock_conversion): climbs from the call through
+    int()/floor()/`// 1`; an offset or round()/ceil() applied to the clock BEFORE flooring (or instead of it) is 'not-floor'."""
+    parent = {}
+    for n in ast.walk(expr):
+        for ch in ast.iter_child_nodes(n):
+            parent[id(ch)] = n
+    clocks = [x for x in ast.walk(expr) if isinstance(x, ast.Call) and (dotted(x.func) or "").endswith("._getTime") and not x.args]
+    if len(clocks) != 1:
+        return None
+    x = clocks[0]
+    floors = {"int", "math.floor", "floor", "math.trunc", "trunc"}
+    floored = False
+    while True:
+        p = parent.get(id(x))
+        if isinstance(p, ast.Call) and dotted(p.func) in floors and len(p.args) == 1 and p.args[0] is x:
+            floored, x = True, p
+        elif isinstance(p, ast.BinOp) and isinstance(p.op, ast.FloorDiv) and p.left is x and isinstance(p.right, ast.Constant) and p.right.value == 1:
+            floored, x = True, p
+        elif not floored and isinstance(p, ast.Call) and dotted(p.func) in ("round", "math.ceil", "ceil"):
+            return "not-floor"
+        elif not floored and isinstance(p, ast.BinOp) and isinstance(p.op, (ast.Add, ast.Sub)) and isinstance(p.right if p.left is x else p.left, ast.Constant):
+            return "not-floor"
+        else:
+            break
+    return "floor" if floored else None
+
+
 def _s_timestamp(ctx, S):
     """K12 on the pair (issue time written by _generateOpaque, age test of _verifyOpaque): evaluated over fractional clock phases, the accepted set
     must equal  int(t_verify) - int(t_issue) <= LIFETIME  (so the real age of an accepted challenge never exceeds LIFETIME + 1 s, as today)."""
@@ -818,6 +903,24 @@ def _s_timestamp(ctx, S):
         L = 900
     phases = (0.0, 0.25, 0.5, 0.75)
     q = QF + "._generateOpaque/_verifyOpaque | issue time vs age test"
+    # structural layer (every clock value): both sides take the FLOOR of the same non-negative clock; together with the normalised boundary
+    # `now - when > LIFETIME` (rule verify/guard-lifetime) this gives  accepted  <=>  floor(t') - floor(t) <= LIFETIME
+    conv = _clock_use(stamp_ast)
+    if conv is None:
+        ctx.note("lifetime/stamp-conversion-is-floor: conversion of the clock in _generateOpaque not recognised, clause left to the bounded rules lifetime/issue-time-is-floor-of-clock "
+                 "and lifetime/accepted-instants-equal-spec")
+    else:
+        ctx.check(conv == "floor", "lifetime/stamp-conversion-is-floor", gen["q"] + " | time field",
+                  f"the issue time is not the floor of the clock ({gen['time_expr']}): rounding up or to nearest stamps the opaque up to a second in the future, so the "
+                  f"challenge is still accepted after its lifetime", detail="structural: int()/floor()/`// 1` applied to the bare clock call")
+    for rt, lab, text in tests:
+        side = _clock_use(rt)
+        if side is None:
+            ctx.note("lifetime/verifier-clock-is-floor: conversion of the clock in the age test not recognised, clause left to lifetime/accepted-instants-equal-spec")
+        else:
+            ctx.check(side == "floor", "lifetime/verifier-clock-is-floor", QF + "._verifyOpaque | age test",
+                      f"the age test does not use the floor of the clock ({text}): the age is under-estimated and an expired challenge is accepted",
+                      detail="structural: int()/floor() applied to the bare clock call")
 
     def stamp(t):
         v = _ev(stamp_ast, {"clock": t, "LIFETIME": L})
